@@ -206,14 +206,17 @@ def replay_dump(ctx, pool, n, dump, label, budget_s):
 def random_history(rng, n, clock):
     """Criss-cross merges, octopus merges, several roots; clock: strict | ties | flat | skew | wild."""
     par = []
-    linear = rng.choice((0.55, 0.55, 0.8))          # some histories are mostly long chains
+    chain = clock == "tiechain"                     # long runs of single-parent commits made in the same second
+    if chain:
+        clock = "flat"
+    linear = 0.9 if chain else rng.choice((0.55, 0.55, 0.8))          # some histories are mostly long chains
     for c in range(1, n + 1):
-        if c == 1 or rng.random() < 0.04:
+        if c == 1 or rng.random() < (0.0 if chain else 0.04):
             par.append(())
             continue
         r = rng.random()
         k = 1 if r < linear else 2 if r < 0.92 else rng.randint(3, 4)
-        window = range(max(1, c - rng.choice((1, 2, 4, 8, 30))), c)
+        window = range(max(1, c - (rng.choice((1, 1, 2)) if chain else rng.choice((1, 2, 4, 8, 30)))), c)
         k = min(k, len(window))
         par.append(tuple(sorted(rng.sample(list(window), k))))
     ts = [0] * n
@@ -309,6 +312,15 @@ def run_random(task):
                 kw = [{}, {}, dict(topo=1), dict(topo=1), dict(rev=1), dict(topo=1, rev=1), dict(maxe=rng.randint(1, n)),
                       dict(since=rng.choice(lv)), dict(until=rng.choice(lv), topo=rng.randrange(2))][o]
                 qs.append(("walk", i, e, kw))
+        if clock == "tiechain":
+            # ranges whose excluded tip is many commits above the included one: the exclusion has to
+            # travel down a long run of equal timestamps while the walk's slop counter is running
+            for _ in range(8):
+                a = rng.randint(1, max(1, n - 7))
+                desc = [c for c in range(a + 6, n + 1) if anc[c - 1] >> (a - 1) & 1]
+                if desc:
+                    i = [a] if rng.random() < 0.6 else sorted({a, rng.randint(1, n)})
+                    qs.append(("walk", i, [rng.choice(desc)], rng.choice([{}, {}, dict(topo=1), dict(rev=1)])))
         return qs
 
     plan = questions()
@@ -626,8 +638,8 @@ def run(ctx):
         mcs.append(("mc_lcas4", dict(n=4, l=4, mode="lcas", usemin=usemin, reduce=reduce, maxd=3, inv=INV_LCAS + exact)))
         mcs.append(("mc_ff4", dict(n=4, l=4, mode="ff", usemin=usemin, reduce=reduce, inv=INV_FF + exact)))
         mcs.append(("mc_repaired4", dict(n=4, l=4, mode="lcas", usemin=False, reduce=True, maxd=3, inv=INV_LCAS + rep)))
-        for me in (1, 2, 5):
-            mcs.append((f"mc_walk4_slop{me}", dict(n=4, l=4, mode="walk", usemin=usemin, reduce=reduce, maxd=2, maxextra=me, inv=INV_WALK)))
+        for me, lv in ((1, 4), (2, 3), (5, 3)):
+            mcs.append((f"mc_walk4_slop{me}", dict(n=4, l=lv, mode="walk", usemin=usemin, reduce=reduce, maxd=2, maxextra=me, inv=INV_WALK)))
         mcs.append(("mc_walk5", dict(n=5, l=2, mode="walk", usemin=usemin, reduce=reduce, maxd=1, maxextra=1, tiebreak="asc", inv=INV_WALK)))
     for name, kw in mcs:
         jobs.submit(name, "GraphMC.tla", mc_cfg(ctx, d, name, **kw), coverage=False)
@@ -653,14 +665,17 @@ def run(ctx):
         nbig = ctx.pick(360, 2500)
         ndisk = ctx.pick(14, 120)
         tasks = []
-        clocks = ["strict", "ties", "skew", "flat", "wild", "ties"]
+        clocks = ["strict", "ties", "skew", "flat", "wild", "ties", "tiechain"]
         for i in range(nbig):
             if ctx.quick:
                 n = ctx.rng.choice([8, 10, 12, 16, 24, 40])
             else:
                 n = ctx.rng.choice([8, 12, 16, 24, 40] * 7 + [80] * 8 + [150] * 5 + [300] * 2)
             nq = 30 if ctx.quick else (50 if n <= 40 else 30 if n == 80 else 20 if n == 150 else 12)
-            t = dict(seed=seed * 100003 + i, n=n, clock=clocks[i % 6], nq=nq, ngit=ctx.pick(40, 60), cuts=(i % 5 == 4))
+            ck = clocks[i % 7]
+            if ck == "tiechain":
+                n, nq = ctx.rng.choice([10, 14, 20, 30]), 10
+            t = dict(seed=seed * 100003 + i, n=n, clock=ck, nq=nq, ngit=ctx.pick(40, 60), cuts=(i % 5 == 4))
             if i < ndisk:
                 t["n"] = min(n, 60)
                 t["disk"] = os.path.join(d, f"disk{i}")
